@@ -269,13 +269,14 @@ WebSocketMsg WebSocket::receive()
 		byte b0, mlen;
 		DEBUG_LOG("receive\n");
 		if (closed()) {
-			return msg.fix();
+			return WebSocketMsg().fix(); // not the fragments of a message that was never completed
 		}
 		DEBUG_LOG("avail %i\n", _socket.available());
 		_socket >> b0 >> mlen;
 		DEBUG_LOG("%i %i\n", b0, mlen);
-		if (closed()) {
-			return msg.fix();
+		if (_closed || _socket.error()) { // closed meanwhile, or the stream ended inside these two bytes (an end of stream behind them does not make them invalid)
+			close();
+			return WebSocketMsg().fix();
 		}
 		bool fin = !!(b0 & 0x80);
 		int opcode = b0 & 0x0f;
@@ -291,7 +292,7 @@ WebSocketMsg WebSocket::receive()
 			if (len64 < 0 || len64 > 0x7fffffff) // does not fit the int sizes used below: refuse the frame
 			{
 				close();
-				return msg.fix();
+				return WebSocketMsg().fix();
 			}
 			len = (int)len64;
 		}
@@ -303,12 +304,18 @@ WebSocketMsg WebSocket::receive()
 		if (_socket.error()) // the stream ended inside the frame header: the fields above are not valid
 		{
 			close();
-			return msg.fix();
+			return WebSocketMsg().fix();
 		}
 
 		buffer.resize(buffer.length() + len);
 		if (len > 0)
 			_socket.read(buffer.data() + buffer.length() - len, len);
+
+		if (_socket.error()) // the stream ended inside the payload: the rest of the buffer was never received
+		{
+			close();
+			return WebSocketMsg().fix();
+		}
 
 		DEBUG_LOG("frame: op %i fin %i len %i\n", opcode, fin ? 1 : 0, (int)len);
 
